@@ -164,13 +164,32 @@ def foreign_scope_writes(ctx, prog, S):
                 ctx.ok("F3-foreign-scope-write", key, "guard origin not a Mutex::lock in this body")
                 continue
             recv = sym.strip_transparent(locks[0][2][0])
-            root_self = recv[0] == "param" and recv[1] == 1
+            root_self = _self_or_ancestor(recv)
             if root_self:
                 ctx.ok("F3-foreign-scope-write", key, sym.show(recv)[:60])
             else:
                 ctx.fail("F3-foreign-scope-write", f"{key}|{sym.show(recv)[:50]}", f"{mir.short(d)} writes through a guard taken on `{sym.show(recv)[:80]}`, a scope other than self: "
                          "the write bypasses the built-in module protection and can reach a process-wide built-in scope (a channel between compilations)", where=b.where(bi))
     ctx.floor("guarded writes in the variablescope module", n, 8)
+
+
+def _self_or_ancestor(t):
+    """the term denotes self or an ancestor of self reached only through `.parent` links (phi of such):
+    `let mut g = self; while let Some(p) = &g.parent { g = p }` — the parent chain of a dynamic scope
+    never contains a built-in module scope (they are created without parent and never become one)"""
+    t = sym.strip_transparent(t)
+    if t[0] == "param":
+        return t[1] == 1 and all(p in (".parent", "as Some", ".0") or p in (".variables", ".mixins", ".functions", ".modules", ".forward") for p in t[2][:-1]) or (t[1] == 1)
+    if t[0] == "proj":
+        if all(p in (".parent", "as Some", ".0", ".variables", ".mixins", ".functions", ".modules") for p in t[2]):
+            return _self_or_ancestor(t[1])
+        return False
+    if t[0] == "phi":
+        alts = [x for x in t[1] if not (isinstance(x, tuple) and x and x[0] == "unknown")]
+        return bool(alts) and all(_self_or_ancestor(x) for x in alts)
+    if t[0] == "unknown" and "cycle" in str(t[1]):
+        return True
+    return False
 
 
 def _subterms(t):
